@@ -59,7 +59,21 @@ def geometry_images(tools, outdir, n, rnd):
         for i in range(rnd.randint(0, 10)):
             cmds.append('%s <%d>' % (rnd.choice(['seti', 'freei']), rnd.randrange(12, max(13, groups * 8))))
         if cmds: tools.dbg(img, cmds, write=True)
-        made.append(dict(img=img, bs=bs, groups=groups, bpg=bpg, kind=kind, blocks=blocks))
+        # padding bits of a bitmap block (behind clusters-/inodes-per-group) that are not all ones make the loader set the *_TAIL_PROBLEM flags: damage one
+        # group's padding in about half of the images whose bitmaps have padding (the threaded loader must report the same flags from whichever thread meets it)
+        tail = None
+        if rnd.random() < 0.5:
+            try:
+                from . import e4ref as _e
+                fs = _e.FS(img); gds = fs.gds(); g = rnd.randrange(fs.ngroups); which = rnd.choice('bi')
+                used = (fs.cpg if which == 'b' else fs.ipg) // 8
+                if used < fs.bs and not (fs.has_gdcsum and gds[g].flags & (2 if which == 'b' else 1)):
+                    blk = gds[g].bbitmap if which == 'b' else gds[g].ibitmap
+                    with open(img, 'r+b') as f:
+                        f.seek(blk * fs.bs + used + rnd.randrange(fs.bs - used)); f.write(b'\x00')
+                    tail = '%s%d' % (which, g)
+            except Exception: pass
+        made.append(dict(img=img, bs=bs, groups=groups, bpg=bpg, kind=kind, blocks=blocks, tail_damage=tail))
     return made
 
 # =====================================================================================================
